@@ -22,8 +22,11 @@ HEADERS = tuple(d + i for i in INSTRUMENTS for d in DIFFICULTIES)  # the 40 trac
 DEFAULT_SYNC = ("0 = TS 4", "0 = B 120000")
 
 
+RAW = "\0"  # a body line starting with RAW is written without indentation (and without the marker)
+
+
 def section(name, body, nl="\n", ind=IND):
-    return nl.join(["[" + name + "]", "{"] + [ind + s for s in body] + ["}"]) + nl
+    return nl.join(["[" + name + "]", "{"] + [(s[1:] if s.startswith(RAW) else ind + s) for s in body] + ["}"]) + nl
 
 
 def sections(secs, nl="\n", ind=IND):
